@@ -342,7 +342,8 @@ class Gen:
         return len(self.m.regs) - 1
 
     SCENARIOS = ["diamond", "captured", "chain", "sites", "zipmap", "nestedzip", "sharedlit", "matrix",
-                 "ntupleidx", "objkeys", "zipsizes", "arraynewmix", "samelit", "failedcompile", "triangle", "kwcall", "closureloop", "litfold", "paramzip", "objorder"]
+                 "ntupleidx", "objkeys", "zipsizes", "arraynewmix", "samelit", "failedcompile", "triangle", "kwcall", "closureloop", "litfold", "paramzip", "objorder",
+                 "mapinner", "badret", "nestedparam", "twoarrparams", "matrices", "nestedacc", "zerolit"]
 
     def scenario(self, k=None):
         rng = self.rng
@@ -507,12 +508,20 @@ class Gen:
             a = self.new_input(rng.choice(PUBSEC))
             self.do({"op": "arrayOf", "r": a, "size": describe(self.m.regs[arrs[0]])[1]})
             arrs.append(self.last())
+            made = []
             for x in arrs:
                 for y in arrs:
                     if rng.random() < 0.6:
                         self.do({"op": rng.choice(["zip", "innerProduct"]), "a": x, "b": y})
+                        if self.m.regs[self.last()] is not DEAD:
+                            made.append(self.last())
                         if describe(self.m.regs[self.last()])[0] == "array" and rng.random() < 0.5:
                             self.do({"op": "unzip", "a": self.last()})
+                            if self.m.regs[self.last()] is not DEAD:
+                                made.append(self.last())
+            rng.shuffle(made)
+            self.compile_now(prefer=made[:4])
+            self.compile_now(prefer=made[4:8])
             return None
         if k == "arraynewmix":
             xs = [self.new_input(T) for _ in range(rng.choice([1, 2, 3]))]
@@ -535,7 +544,25 @@ class Gen:
                 self.do({"op": "arrayNew", "xs": [pub if ch == "p" else sec for ch in pattern]})
                 if self.m.regs[self.last()] is not DEAD:
                     made.append(self.last())
-            self.compile_now(prefer=(made + [good])[:4])
+            # n-tuples whose member lists are a proper prefix of one another, objects with one more field
+            t1, t2, t3 = self.new_input(T), self.new_input(T), self.new_input(T)
+            self.do({"op": "ntupleNew", "xs": [t1, t2]})
+            pair = self.last()
+            self.do({"op": "ntupleNew", "xs": [t1, t2, t3]})
+            triple = self.last()
+            self.do({"op": "ntupleNew", "xs": [t2, t1]})
+            pair2 = self.last()
+            for xs in ([pair, triple], [triple, pair], [pair, pair2], [pair, pair2, triple]):
+                self.do({"op": "arrayNew", "xs": xs})
+                if self.m.regs[self.last()] is not DEAD:
+                    made.append(self.last())
+            self.do({"op": "objectNew", "fs": [["x", t1], ["y", t2]]})
+            o2 = self.last()
+            self.do({"op": "objectNew", "fs": [["x", t1], ["y", t2], ["z", t3]]})
+            self.do({"op": "arrayNew", "xs": [o2, self.last()]})
+            if self.m.regs[self.last()] is not DEAD:
+                made.append(self.last())
+            self.compile_now(prefer=(made[::-1] + [good])[:4])
             return None
         if k == "samelit":
             # one value written at several literal types (and twice at one type), each kept from folding by a
@@ -780,6 +807,212 @@ class Gen:
             y = self.last()
             self.do({"op": "bin", "bop": "add", "a": y, "b": l1})
             self.compile_now(prefer=[self.last()])
+            return None
+        if k == "mapinner":
+            # inner products whose operands are *mapped* arrays (their element type is the function's return class, not an
+            # instance), in every combination with input arrays of either secrecy
+            Ti = rng.choice(["SecretInteger", "PublicInteger", "SecretUnsignedInteger"])
+            base = Ti.replace("Public", "").replace("Secret", "")
+            sec, pub = "Secret" + base, "Public" + base
+            n = rng.choice([2, 3])
+            arrs = {}
+            for nm, t in (("s", sec), ("p", pub)):
+                a = self.new_input(t)
+                self.do({"op": "arrayOf", "r": a, "size": n})
+                arrs[nm] = self.last()
+
+            def dbl(ps):
+                self.do({"op": "bin", "bop": "add", "a": ps[0], "b": ps[0]})
+                return self.last()
+            made = []
+            for src, t in (("s", sec), ("p", pub)):
+                self.define_fn(anns=[t], ret=t, plan=dbl)
+                f = self.last()
+                if describe(self.m.regs[f])[0] != "fn":
+                    continue
+                self.do({"op": "map", "a": arrs[src], "f": f})
+                arrs["m" + src] = self.last()
+            keys = [kk for kk in ("s", "p", "ms", "mp") if kk in arrs]
+            for x in keys:
+                for y in keys:
+                    if ("m" in x or "m" in y) and rng.random() < 0.8:
+                        self.do({"op": "innerProduct", "a": arrs[x], "b": arrs[y]})
+                        if self.m.regs[self.last()] is not DEAD:
+                            made.append(self.last())
+            rng.shuffle(made)
+            self.compile_now(prefer=made[:4])
+            self.compile_now(prefer=made[4:8])
+            return None
+        if k == "badret":
+            # a function whose body is more secret than its declared return class (same base type), then used at a map,
+            # a call and a reduce site whose results are compiled: the definition must be rejected
+            base = rng.choice(["Integer", "UnsignedInteger", "Boolean"])
+            sec, pub = "Secret" + base, "Public" + base
+            lim = self.new_input(pub)
+
+            def body(ps, lim=lim):
+                self.do({"op": "bin", "bop": "xor" if base == "Boolean" else rng.choice(["add", "mul"]), "a": ps[0], "b": lim})
+                return self.last()
+            self.define_fn(anns=[sec], ret=pub, plan=body)
+            f = self.last()
+            x = self.new_input(sec)
+            a = self.new_input(sec)
+            self.do({"op": "arrayOf", "r": a, "size": 3})
+            arr = self.last()
+            made = []
+            self.do({"op": "call", "f": f, "args": [x]})
+            made.append(self.last())
+            self.do({"op": "map", "a": arr, "f": f})
+            made.append(self.last())
+            if base != "Boolean":
+                def cmp_body(ps, lim=lim):
+                    self.do({"op": "bin", "bop": "lt", "a": ps[0], "b": lim})
+                    return self.last()
+                self.define_fn(anns=[sec], ret="PublicBoolean", plan=cmp_body)
+                g2 = self.last()
+                self.do({"op": "map", "a": arr, "f": g2})
+                made.append(self.last())
+            self.compile_now(prefer=[r for r in made if self.m.regs[r] is not DEAD])
+            return None
+        if k == "nestedparam":
+            # a function over an array of arrays (parameter annotation Array[Array[T]]) mapped over a cube, whose body
+            # reduces the rows with a second function taking an Array[T] parameter
+            Ti = rng.choice(["SecretInteger", "PublicInteger", "SecretUnsignedInteger"])
+            cap = self.new_input(Ti)
+
+            def row_body(ps):
+                self.do({"op": "innerProduct", "a": ps[1], "b": ps[1]})
+                ip = self.last()
+                if self.m.regs[ip] is DEAD:
+                    return ps[0]
+                self.do({"op": "bin", "bop": "add", "a": ps[0], "b": ip})
+                return self.last()
+            self.define_fn(anns=[Ti, ["Array", Ti]], ret=Ti, plan=row_body)
+            g = self.last()
+            if describe(self.m.regs[g])[0] != "fn":
+                return None
+
+            def mat_body(ps, g=g, cap=cap):
+                self.do({"op": "reduce", "a": ps[0], "f": g, "init": cap})
+                return self.last()
+            self.define_fn(anns=[["Array", ["Array", Ti]]], ret=Ti, plan=mat_body)
+            f = self.last()
+            if describe(self.m.regs[f])[0] != "fn":
+                return None
+            rows = []
+            for _ in range(2):
+                a = self.new_input(Ti)
+                self.do({"op": "arrayOf", "r": a, "size": 2})
+                rows.append(self.last())
+            self.do({"op": "arrayNew", "xs": rows})
+            mat = self.last()
+            self.do({"op": "arrayNew", "xs": [mat, mat, mat]})
+            cube = self.last()
+            self.do({"op": "map", "a": cube, "f": f})
+            out1 = self.last()
+            self.do({"op": "reduce", "a": mat, "f": g, "init": cap})
+            self.compile_now(prefer=[out1, self.last()])
+            return None
+        if k == "twoarrparams":
+            # two functions whose Array parameters differ in element class (and one in nesting), both used and compiled
+            made = []
+            kinds = rng.sample(["SecretInteger", "PublicInteger", "SecretUnsignedInteger", "PublicUnsignedInteger"], 2)
+            for Ti in kinds:
+                def body(ps):
+                    self.do({"op": "innerProduct", "a": ps[0], "b": ps[0]})
+                    return self.last()
+                self.define_fn(anns=[["Array", Ti]], ret=Ti, plan=body)
+                f = self.last()
+                if describe(self.m.regs[f])[0] != "fn":
+                    continue
+                rows = []
+                for _ in range(2):
+                    a = self.new_input(Ti)
+                    self.do({"op": "arrayOf", "r": a, "size": 2})
+                    rows.append(self.last())
+                self.do({"op": "arrayNew", "xs": rows})
+                self.do({"op": "map", "a": self.last(), "f": f})
+                made.append(self.last())
+                if rng.random() < 0.5:
+                    self.compile_now(prefer=[self.last()])
+            self.compile_now(prefer=made)
+            return None
+        if k == "matrices":
+            # arrays whose types agree on the outer size and the element *class* but differ below: rows of different sizes,
+            # of different secrecy, zips with different right components
+            Ti = rng.choice(["SecretInteger", "PublicInteger"])
+            Tj = "PublicInteger" if Ti == "SecretInteger" else "SecretInteger"
+            def arr_of(t, n):
+                a = self.new_input(t)
+                self.do({"op": "arrayOf", "r": a, "size": n})
+                return self.last()
+            r2, r3, q2 = arr_of(Ti, 2), arr_of(Ti, 3), arr_of(Tj, 2)
+            made = []
+            for row in rng.sample([r2, r3, q2], 3):
+                self.do({"op": "arrayNew", "xs": [row, row]})
+                made.append(self.last())
+            x2, y2 = arr_of(Ti, 2), arr_of(Tj, 2)
+            for a, b in rng.sample([(x2, x2), (x2, y2), (y2, x2), (y2, y2)], 3):
+                self.do({"op": "zip", "a": a, "b": b})
+                made.append(self.last())
+            made = [r for r in made if self.m.regs[r] is not DEAD]
+            self.compile_now(prefer=made[:4])
+            self.compile_now(prefer=made[2:6])
+            return None
+        if k == "nestedacc":
+            # two-step access: an n-tuple inside an n-tuple, an object inside an object (every index / key of either level
+            # on the inner value)
+            a, b, c, d = (self.new_input() for _ in range(4))
+            self.do({"op": "ntupleNew", "xs": [a, b]})
+            inner = self.last()
+            self.do({"op": "ntupleNew", "xs": [c, inner, d]})
+            outer = self.last()
+            self.do({"op": "ntupleGet", "t": outer, "i": "1"})
+            got = self.last()
+            made = []
+            idx = list(range(-4, 4))
+            rng.shuffle(idx)
+            for i in idx:
+                self.do({"op": "ntupleGet", "t": got, "i": str(i)})
+                if self.m.regs[self.last()] is not DEAD:
+                    made.append(self.last())
+            self.do({"op": "objectNew", "fs": [["low", a], ["high", b]]})
+            lim = self.last()
+            self.do({"op": "objectNew", "fs": [["limits", lim], ["scale", c], ["high", d]]})
+            cfg = self.last()
+            self.do({"op": "objectGet", "o": cfg, "key": "limits"})
+            got2 = self.last()
+            for kk in rng.sample(["low", "high", "scale", "limits", "missing"], 5):
+                self.do({"op": "objectGet", "o": got2, "key": kk})
+                if self.m.regs[self.last()] is not DEAD:
+                    made.append(self.last())
+            rng.shuffle(made)
+            self.compile_now(prefer=made[:4])
+            return None
+        if k == "zerolit":
+            # literals of the values 0, 1, 2 (written, or the result of a fold) next to public and secret operands under
+            # every arithmetic operator: an operation with a non-literal operand is recorded, whatever the literal's value
+            made = []
+            for t, base in rng.sample([("PublicInteger", "int"), ("SecretInteger", "int"), ("PublicUnsignedInteger", "uint")], 2):
+                x = self.new_input(t)
+                for v in (0, 1, 2):
+                    if rng.random() < 0.5:
+                        self.do({"op": "lit", "base": base, "v": str(v)})
+                    else:
+                        self.do({"op": "lit", "base": base, "v": str(v + 3)})
+                        l3 = self.last()
+                        self.do({"op": "lit", "base": base, "v": "3"})
+                        self.do({"op": "bin", "bop": "sub", "a": l3, "b": self.last()})
+                    lit = self.last()
+                    for bop in rng.sample(["mul", "add", "sub", "pow", "div", "mod"], 3):
+                        if bop in ("div", "mod") and v == 0:
+                            continue
+                        self.do({"op": "bin", "bop": bop, "a": x, "b": lit} if rng.random() < 0.7 or bop == "pow"
+                                else {"op": "bin", "bop": bop, "a": lit, "b": x})
+                        if self.m.regs[self.last()] is not DEAD:
+                            made.append(self.last())
+            rng.shuffle(made)
+            self.compile_now(prefer=made[:4])
             return None
         return None
 
